@@ -15,8 +15,8 @@ META = {
             "(null, bool, int -/0/+/huge, real, name expected/other, string, empty/short array, array of refs, dict, stream, ref to "
             "each object incl. self, dangling ref) and checks, per walker model transcribed from the code, that it reaches a final "
             "state within its variant, terminates (liveness) and never evaluates a partial operation; run 'as the code is' "
-            "(the nine deviations repaired by fix: commits switched off, the three open depth deviations on) the model yields "
-            "exactly the three depth classes, with the repaired defects seeded back it violates totality (negative control). "
+            "(the ten deviations repaired by fix: commits switched off, the two open depth deviations on) the model yields "
+            "exactly the two open depth classes, with the repaired defects seeded back it violates totality (negative control). "
             "Depth dimension: on long ACYCLIC chains through every followed link (Parent, First, Next, Kids, wide Kids, page-tree "
             "Kids, Contents array, reference-to-reference chains) of every length around and beyond the modelled limits the walker "
             "automata carry their recursion depth against a machine stack of StackFrames frames; a walker without a budget is "
@@ -44,8 +44,9 @@ ACTIONS = ["StepDeref", "StepCont", "StepRsrc", "StepNd", "StepOut", "StepToc", 
 # Trace_Queries.cfg); a missing one means the model went blind, an extra one that a switch is stale.  Empty since all
 # nine deviations (outline.next.cycle, outline.first.cycle, outline.dest.short, nameddest.kids.cycle, nameddest.D.absent,
 # nameddest.key.notstring, nameddest.val.short, images.colorspace.empty, pages.count.huge) are repaired in lopdf.
-MODEL_CLASSES = {"resources.parent.depth", "outline.first.depth", "nameddest.kids.depth"}
-# These three are the depth dimension (long ACYCLIC chains: the cycle guards end cycles, nothing bounds the depth of the
+MODEL_CLASSES = {"outline.first.depth", "nameddest.kids.depth"}
+# (resources.parent.depth is repaired: fix eb0343c walks the Parent links in a loop; Dev_RsrcRecursion = FALSE in the as-is cfgs.)
+# The *.depth classes are the depth dimension (long ACYCLIC chains: the cycle guards end cycles, nothing bounds the depth of the
 # recursion on Parent / First / Kids).  In the MC runs they are produced by scenario "chain" with the machine stack and the
 # budgets scaled down (StackFrames = 9 / 300): a prediction about the scale model, not about the enumerated document,
 # which lopdf handles on any real stack.  At real scale the families of `c13 chains` (10 .. 100 000 links on a 2 MiB
